@@ -66,6 +66,7 @@ def run(run, args):
     run.oblige("the long-lived generator object and the per-composition generator object return the free function's pattern for every request of the run (bit for bit)", not gen_diff,
                "%d differ" % len(gen_diff))
     broken = standard_proof_obligations(run, "C09", THEOREMS) if THEOREMS else []
+    broken += source_corollaries(run, "C09s", ['C09s_fixed', 'C09s_nonpositive', 'C09s_default', 'C09s_guess', 'C09s_fraction', 'C09s_clamp', 'C09s_max_order'], ('mz', 'poisson', 'brain'))
     broken += standard_proof_obligations(run, "C09b", ["C09_center_bounds", "C09_center_between", "C09_element_sandwich", "C09_table_sane"])
     broken += standard_proof_obligations(run, "C09c", ["C09_center_ladder", "C09_center_ladder_between", "C09_center_strict", "C09_element_ladder",
                                                        "C09_ladder_gap", "C09_table_ladder", "C09_table_ladder_read", "C09_table_gap", "C09_glucose_strict"])
